@@ -132,8 +132,16 @@ class IfRange:
         elif value.endswith(" GMT"):
             # Must be a date
             return IfRangeDate(parse_date(value))
-        else:
-            return cls(ETagMatcher.parse(value))
+        elif not value.startswith(('"', 'W/"')):
+            # Not an entity-tag: it may be the obsolete asctime form of
+            # HTTP-date (RFC 7231 section 7.1.1.1), which carries no zone
+            # and is in GMT by definition
+            date = parse_date(value + " GMT")
+
+            if date is not None:
+                return IfRangeDate(date)
+
+        return cls(ETagMatcher.parse(value))
 
     def __contains__(self, resp):
         """
